@@ -442,6 +442,10 @@ func genEndpoints(t *rapid.T, label string) []saml.Endpoint {
 		e := saml.Endpoint{Binding: genBinding(t, label+"b"), Location: genEndpointURL(t, label+"loc")}
 		if rapid.Bool().Draw(t, label+"resp?") {
 			e.ResponseLocation = genEndpointURL(t, label+"resp")
+			// optional attribute coinciding with its sibling: equal values are still two attributes
+			if rapid.IntRange(0, 2).Draw(t, label+"resp=loc") == 0 {
+				e.ResponseLocation = e.Location
+			}
 		}
 		out = append(out, e)
 	}
@@ -455,6 +459,9 @@ func genIndexedEndpoints(t *rapid.T, label string) []saml.IndexedEndpoint {
 		e := saml.IndexedEndpoint{Binding: genBinding(t, label+"b"), Location: genEndpointURL(t, label+"loc"), Index: rapid.IntRange(-2, 70000).Draw(t, label+"idx")}
 		if rapid.Bool().Draw(t, label+"resp?") {
 			r := genEndpointURL(t, label+"resp")
+			if rapid.IntRange(0, 2).Draw(t, label+"resp=loc") == 0 {
+				r = e.Location
+			}
 			e.ResponseLocation = &r
 		}
 		if rapid.Bool().Draw(t, label+"def?") {
